@@ -4,15 +4,17 @@
 #  (b) Miri over the real rayon, seeded scheduler + data-race detector          (thorough tier only)
 #  (a) simrayon: seeded search over simulated schedules                          (the deciding engine)
 BIN="$1"; TIER="$2"; SEED="$3"
-V=/verif
+V="$(cd "$(dirname "$0")/.." && pwd)"
 cd "$V" || exit 2
 rc=0
 worst() { if [ "$1" -eq 1 ]; then rc=1; elif [ "$1" -ne 0 ] && [ "$rc" -eq 0 ]; then rc=2; fi; }
 rm -f "$V/target/c07-native.json" "$V/target/c07-miri.json"
 
 # ---- engine (c)
-if ( cd "$V/simnative" && CARGO_TARGET_DIR=$V/target/native-plain cargo build --release --offline >"$V/target/build-native-plain.log" 2>&1 ); then
-  "$V/target/native-plain/release/graphsim-native" native-c07 --tier "$TIER" --seed "$SEED" --verif-dir "$V"
+NDIR="$V/simnative"; NT="$V/target/native-plain"
+if [ "${VERIF_REPO:-/repo}" != /repo ]; then NDIR="$V/target/alt-manifests/simnative"; NT="$V/target/alt-native-plain"; fi
+if [ -d "$NDIR" ] && ( cd "$NDIR" && CARGO_TARGET_DIR=$NT cargo build --release --offline >"$V/target/build-native-plain.log" 2>&1 ); then
+  "$NT/release/graphsim-native" native-c07 --tier "$TIER" --seed "$SEED" --verif-dir "$V"
   worst $?
 else
   echo "check: the native (real rayon) engine does not build; see target/build-native-plain.log" >&2
